@@ -48,6 +48,10 @@ RULES = {
     'C06.n': 'two snapshots of one database never overlap: every call of the storage dispatcher (and through it of a data-file writer, '
              'which is not re-entrant: it appends and records offsets as if alone) is made while the write guard of the snapshot '
              'queue Databases.to_snapshot is held — the one lock the declutter thread, the shutdown path and a client all pass',
+    'C06.o': 'a key record that was APPENDED (reclaiming snapshot, new key) is remembered at the address it was appended at: a mark-as-saved '
+             'call that can follow an append of the key record in the same iteration does not take its key address from the copied entry '
+             '(that offset points into the OLD key file; the next in-place update overwrites another record of the rewritten file)',
+    'C06.p': 'the loader keeps every key record it reads (C11.h, repeated): a record skipped on a size test — an empty value reads 0 bytes — is a live key missing after the restart',
 }
 
 STATUS = 'nundb::bo::ValueStatus'
@@ -141,6 +145,9 @@ def run(ck, m):
     offsets_rules(ck, m)
     clean_mark_with_the_written_value(ck, m)
     writers_serialised(ck, m)
+    appended_key_remembered_where_appended(ck, m)
+    from nl import alias
+    alias.repeat(ck, m, 'C11', ('C11.h',), 'C06.p', runner=__import__('props.C11', fromlist=['x']).loader_keeps_every_record)
 
 
 def _run(ck, m):
@@ -751,3 +758,45 @@ def writers_serialised(ck, m):
           'client `snapshot` can then write the same database at once — the writer is not re-entrant, the appends interleave, each '
           'records offsets as if it were alone, and a restart loads garbage' % bad, bad[0] if bad else '')
     ck.floor('C06.n', n, 1, 'calls of the storage dispatcher')
+
+
+
+def appended_key_remembered_where_appended(ck, m):
+    """C06.o — see RULES"""
+    from props.C07 import natural_loops
+    P = m.prog
+    try:
+        wb, tm, regions = writer_cells(m)
+    except core.AnchorError as e:
+        ck.undecided('C06.o', 'writer', 'anchor', str(e))
+        return
+    marks = [b for b in P.user_bodies() if b.id.endswith('bo::Database::set_value_as_ok')]
+    appends = [b for b in P.user_bodies() if b.id.endswith('storage::disk::write_key')]
+    if not marks or not appends:
+        ck.undecided('C06.o', 'writer', 'anchor', 'mark-as-saved / key appender not found')
+        return
+    n = 0
+    scope = [wb] + [h for h in P.private_helpers(wb)]
+    for b in scope:
+        loops = natural_loops(b)
+        ws = [bi for bi, t in b.calls() if callee(t) == appends[0].id]
+        cs = [bi for bi, t in b.calls() if callee(t) == marks[0].id]
+        for c in cs:
+            t = b.term(c)
+            # the key-address argument: the parameter of the mark function named after the key file offset (position 4: key, value,
+            # value addr, KEY addr, op id)
+            if len(t['args']) < 5:
+                continue
+            heads = [h for h, body in loops if c in body]
+            stop = (lambda y: y in heads) if heads else None
+            after_append = [w for w in ws if c in b.reach_from([w], stop=stop)]
+            if not after_append:
+                continue
+            n += 1
+            from_entry = [r for r in origins(b, t['args'][4]) if any(q and q[0] == 'f' and q[2] == 'key_disk_addr' for q in (r[-1] or ()))]
+            ck.ob('C06.o', short(b.id), 'appended-key-remembered-where-appended:%d' % n, not from_entry,
+                  'after an append the entry is remembered at the running offset of the key file' if not from_entry else
+                  'the mark-as-saved at %s can follow an append of the key record (%s) and still takes the key address from the copied entry: after '
+                  'a reclaiming snapshot the entry keeps its offset into the OLD key file — the next incremental snapshot writes its 12-byte '
+                  'in-place update into another key\'s record of the rewritten file' % (b.loc(c), [b.loc(w) for w in after_append]), b.loc(c))
+    ck.floor('C06.o', n, 1, 'mark-as-saved calls that can follow an append of the key record')
